@@ -36,6 +36,47 @@ fn fnv(s: &str) -> u64 {
     h
 }
 
+/// Canonical form of an observation at a comparison level.
+pub fn canon(level: u8, x: &str) -> String {
+    match level {
+        0 | 1 => crate::wire::l1(x),
+        3 => {
+            // L1 on the result token, call log verbatim
+            match x.split_once(' ') {
+                Some((head, rest)) => format!("{} {}", crate::wire::l1(head), rest),
+                None => crate::wire::l1(x),
+            }
+        }
+        7 => {
+            // outcome class only: a value ("ok") or a failure ("E")
+            let head = x.split(' ').next().unwrap_or("");
+            if head == "ok" || head == "E" {
+                head.to_string()
+            } else if head.starts_with("e:") {
+                "E".to_string()
+            } else {
+                "ok".to_string()
+            }
+        }
+        5 => {
+            // AST: syntax errors compare by class, trees as JSON values
+            if x.starts_with('E') {
+                "E".to_string()
+            } else {
+                x.to_string()
+            }
+        }
+        4 => {
+            // JSON documents: compare as values
+            match serde_json::from_str::<serde_json::Value>(x) {
+                Ok(v) => v.to_string(),
+                Err(_) => x.to_string(),
+            }
+        }
+        _ => x.to_string(),
+    }
+}
+
 /// A pending comparison with the model.
 pub struct Pending {
     pub request: String,
@@ -97,59 +138,50 @@ impl Report {
         self.model_requests += reqs.len() as u64;
         match run_model(driver, &reqs) {
             Err(e) => self.model_error = Some(e),
-            Ok(answers) => {
-                for (p, a) in pending.iter().zip(answers.iter()) {
-                    let canon = |x: &str| -> String {
-                        match p.level {
-                            0 | 1 => crate::wire::l1(x),
-                            3 => {
-                                // L1 on the result token, call log verbatim
-                                match x.split_once(' ') {
-                                    Some((head, rest)) => format!("{} {}", crate::wire::l1(head), rest),
-                                    None => crate::wire::l1(x),
-                                }
-                            }
-                            7 => {
-                                // outcome class only: a value ("ok") or a failure ("E")
-                                let head = x.split(' ').next().unwrap_or("");
-                                if head == "ok" || head == "E" {
-                                    head.to_string()
-                                } else if head.starts_with("e:") {
-                                    "E".to_string()
-                                } else {
-                                    "ok".to_string()
-                                }
-                            }
-                            5 => {
-                                // AST: syntax errors compare by class, trees as JSON values
-                                if x.starts_with('E') {
-                                    "E".to_string()
-                                } else {
-                                    x.to_string()
-                                }
-                            }
-                            4 => {
-                                // JSON documents: compare as values
-                                match serde_json::from_str::<serde_json::Value>(x) {
-                                    Ok(v) => v.to_string(),
-                                    Err(_) => x.to_string(),
-                                }
-                            }
-                            _ => x.to_string(),
-                        }
-                    };
-                    let (i, m) = (canon(&p.implementation), canon(a));
-                    if i != m && self.disagreements.len() < 200 {
-                        self.disagreements.push(Failure {
-                            input: p.input.clone(),
-                            implementation: p.implementation.clone(),
-                            expected: a.clone(),
-                            why: format!("model request: {}", p.request),
-                        });
-                    }
-                }
+            Ok(answers) => self.compare_answers(pending, &answers),
+        }
+    }
+
+    /// Diff the model's answers against the pending observations at each request's level.
+    pub fn compare_answers(&mut self, pending: &[Pending], answers: &[String]) {
+        for (p, a) in pending.iter().zip(answers.iter()) {
+            let (i, m) = (canon(p.level, &p.implementation), canon(p.level, a));
+            if i != m && self.disagreements.len() < 200 {
+                self.disagreements.push(Failure {
+                    input: p.input.clone(),
+                    implementation: p.implementation.clone(),
+                    expected: a.clone(),
+                    why: format!("model request: {}", p.request),
+                });
             }
         }
+    }
+
+    /// Fold the counts and findings of a partial report (one worker's share) into this one.
+    pub fn merge(&mut self, other: Report) {
+        self.evaluations += other.evaluations;
+        self.distinct.extend(other.distinct);
+        for s in other.samples {
+            self.sample(s);
+        }
+        for (k, v) in other.dist {
+            *self.dist.entry(k).or_insert(0) += v;
+        }
+        for f in other.oracle_failures {
+            if self.oracle_failures.len() < 200 {
+                self.oracle_failures.push(f);
+            }
+        }
+        for f in other.disagreements {
+            if self.disagreements.len() < 200 {
+                self.disagreements.push(f);
+            }
+        }
+        self.model_requests += other.model_requests;
+        if self.model_error.is_none() {
+            self.model_error = other.model_error;
+        }
+        self.notes.extend(other.notes);
     }
 
     pub fn to_json(&self) -> Value {
